@@ -77,6 +77,10 @@ def shapes(tier, seed):
         for n in (2, 3, 4, 5):
             for rs in range(3 if tier == "quick" else 8):
                 out.append({"kind": "assembly", "dim": dim, "n": n, "rseed": seed * 100 + rs})
+    # the fold applied to the REAL pair loop (not to a stand-in for it): half grid over a full-sphere object whose regions are given
+    for N in (2, 3):
+        for rs in (0, 2, 3):
+            out.append({"kind": "compose", "dim": 4, "N": N, "rseed": seed * 100 + rs})
     for dim in (3, 4):
         for m in ((2, 3) if tier == "quick" else (2, 3, 4)):
             out.append({"kind": "reduce", "dim": dim, "m": m})
@@ -100,7 +104,7 @@ def gen_G(N, gseed):
 
 
 def run_shape(shape):
-    return {"fold": run_fold, "assembly": run_assembly, "distance": run_distance, "reduce": run_reduce, "cell_model": run_cell_model}[shape["kind"]](shape)
+    return {"compose": run_compose, "fold": run_fold, "assembly": run_assembly, "distance": run_distance, "reduce": run_reduce, "cell_model": run_cell_model}[shape["kind"]](shape)
 
 
 # ------------------------------------------------------------------------------------------------------ which cell model
@@ -586,6 +590,123 @@ def run_assembly(shape):
     return acc.result(eng.stats, prover.stats)
 
 
+def _compose_setup(shape):
+    N = shape["N"]
+    n2 = 2 * N
+    G = gen_G(N, 0)
+    centers = np.vstack([G, -G])
+    # region lists from a seeded choice of adjacent pairs: an adjacent pair owns three vertices of its own (the shared 2-face), other
+    # pairs share nothing; a cell is never adjacent to its own antipode (contract of the full-sphere diagram)
+    rng = np.random.default_rng(500 + shape["rseed"])
+    pairs = [(i, j) for i in range(n2) for j in range(i + 1, n2) if j != (i + N) % n2]
+    mode = shape["rseed"] % 100
+    chosen = pairs if mode == 0 else [p_ for p_ in pairs if rng.random() < 0.5]
+    regions = [[1000 + i] for i in range(n2)]
+    for k, (i, j) in enumerate(chosen):
+        vs = [3 * k, 3 * k + 1, 3 * k + 2]
+        regions[i] += vs
+        regions[j] += vs
+    regions = [sorted(r_) for r_ in regions]
+    adj = {(i, j): len(set(regions[i]) & set(regions[j])) >= 3 for i in range(n2) for j in range(n2) if i != j}
+    return N, n2, G, centers, regions, adj
+
+
+def run_compose(shape):
+    """HalfRotobjVoronoi._calculate_N_N_array over a full-sphere object that runs the REAL pair loop on given region lists (centres: the
+    double cover [G; -G]; border / distance callbacks symbolic): the folded entry is the near pair's value if the near pair shares a face,
+    else the far pair's -- whatever arguments the half grid passes down to the pair loop"""
+    import molgri.space.voronoi as Vm
+    N, n2, G, centers, regions, adj = _compose_setup(shape)
+    opp = lambda i: (i + N) % n2
+    eng = Engine()
+    prover = Prover(timeout_ms=10000, budget_s=300)
+    acc = Acc(shape)
+    bv = {(i, j): z3.Real(f"bor_{i}_{j}") for i in range(n2) for j in range(i + 1, n2)}
+    dv = {(i, j): z3.Real(f"dis_{i}_{j}") for i in range(n2) for j in range(i + 1, n2)}
+    for v in list(bv.values()) + list(dv.values()):
+        eng.declare_sign(v, "+")
+    eng.assume_global(*[v > 0 for v in list(bv.values()) + list(dv.values())])
+
+    class V(Vm.RotobjVoronoi):
+        def _calculate_borders(self, i, j):
+            return SR(bv[(min(i, j), max(i, j))])
+
+        def _calculate_center_distances(self, i, j):
+            return SR(dv[(min(i, j), max(i, j))])
+
+    def body():
+        with bound(Vm, coo_array=sp.coo_array, print=noprint, np=NPProxy()):
+            full = _assembly_object(Vm, V, centers, regions)
+            h = fgstub.make_half_voronoi(Vm, N, G, full)
+            return {p: h._calculate_N_N_array(sel_property=p) for p in ("adjacency", "border_len", "center_distances")}
+
+    def A(prop, i, j):
+        if i == j or not adj[(i, j)]:
+            return z3.RealVal(0)
+        return z3.RealVal(1) if prop == "adjacency" else (bv if prop == "border_len" else dv)[(min(i, j), max(i, j))]
+    for path in eng.explore(body):
+        acc.begin(prover, path)
+        if path.kind == "exc":
+            if fgstub.BYPASSED:
+                bypass_guard(path.value)
+            acc.structural("no_exception", False, detail=repr(path.value) + (path.tb or "")[-500:], cex={"kind": "exception", "exc": type(path.value).__name__})
+            continue
+        if acc.reachable is not True:
+            acc.reach(prover.satisfiable(path.premises))
+        R = path.value
+        ok = all(tuple(R[p].shape) == (N, N) for p in R)
+        acc.structural("result_is_NxN", ok, detail={p: tuple(R[p].shape) for p in R})
+        if not ok:
+            continue
+        claims = []
+        for prop in R:
+            Fm = R[prop].toarray()
+            for i in range(N):
+                for j in range(N):
+                    if i == j:
+                        claims.append((f"diag[{prop},{i}]", z(Fm[i, i]) == 0))
+                        continue
+                    a, b = A(prop, i, j), A(prop, i, opp(j))
+                    claims.append((f"fold_of_the_real_pair_loop[{prop},{i},{j}]", z(Fm[i, j]) == (a if adj[(i, j)] else b)))
+        acc.add(prover.prove_all(path.premises, claims))
+    return acc.result(eng.stats, prover.stats)
+
+
+def replay_compose(cex):
+    import contextlib, io
+    import molgri.space.voronoi as Vm
+    shape = cex["shape"]
+    N, n2, G, centers, regions, adj = _compose_setup(shape)
+    opp = lambda i: (i + N) % n2
+    bvf = lambda i, j: 1.0 + 0.1 * min(i, j) + 0.01 * max(i, j)
+    dvf = lambda i, j: 2.0 + 0.1 * min(i, j) + 0.01 * max(i, j)
+
+    class V(Vm.RotobjVoronoi):
+        def _calculate_borders(self, i, j):
+            return bvf(i, j)
+
+        def _calculate_center_distances(self, i, j):
+            return dvf(i, j)
+    bad = []
+    try:
+        with contextlib.redirect_stdout(io.StringIO()):
+            full = _assembly_object(Vm, V, centers, regions)
+            h = fgstub.make_half_voronoi(Vm, N, G, full)
+            R = {p: np.asarray(h._calculate_N_N_array(sel_property=p).toarray(), dtype=float) for p in ("adjacency", "border_len", "center_distances")}
+    except Exception as e:  # noqa: BLE001
+        return {"reproduced": True, "detail": f"raised {e!r}"}
+    for prop, Fm in R.items():
+        val = (lambda i, j: 1.0) if prop == "adjacency" else (bvf if prop == "border_len" else dvf)
+        for i in range(N):
+            for j in range(N):
+                if i == j:
+                    continue
+                exp = val(i, j) if adj[(i, j)] else (val(i, opp(j)) if adj[(i, opp(j))] else 0.0)
+                if Fm.shape != (N, N) or not isclose(Fm[i, j], exp):
+                    bad.append(f"{prop}[{i},{j}] = {Fm[i, j] if Fm.shape == (N, N) else Fm.shape}, expected {exp}")
+    return {"reproduced": bool(bad), "detail": f"regions {regions}: {bad[:5]}"}
+
+
 def replay_assembly(cex):
     import molgri.space.voronoi as Vm
     shape = cex["shape"]
@@ -727,7 +848,7 @@ def replay_distance(cex):
 
 
 def replay(cex):
-    return {"fold": replay_fold, "assembly": replay_assembly, "distance": replay_distance, "reduce": replay_reduce, "cell_model": replay_cell_model}[cex["shape"]["kind"]](cex)
+    return {"compose": replay_compose, "fold": replay_fold, "assembly": replay_assembly, "distance": replay_distance, "reduce": replay_reduce, "cell_model": replay_cell_model}[cex["shape"]["kind"]](cex)
 
 
 def finding_key(cex):
